@@ -121,6 +121,9 @@ class Check:
         moved = {k: len(v) for k, v in mon.seen.items() if len(v) >= 2}
         for k in moved:
             cov.hit("leaf_kinds_with_2plus_values", k)
+        if cov.d.get("diag_reference_error"):
+            # the oracle itself failed: nothing of this case may count as 'held'
+            return {"harness_error": f"reference encoder raised: {cov.d['diag_reference_error']}"}
         nontrivial = cov.d.get("observations_compared", 0) >= 30 and len(moved) >= 6
         return {"violations": out, "cov": cov.d, "nontrivial": nontrivial, "digest": digest([spec["src"], spec["policy"], spec["seed"]]),
                 "sample": {"case": spec, "observations_compared": cov.d.get("observations_compared"), "moving_leaf_kinds": sorted(moved)[:12],
